@@ -23,7 +23,7 @@ MAX_DIAG = 64
 STRICT_RANGE = True
 LIBKINDS = ['KLabelTwice', 'KPadEval', 'KPadNonPositive', 'KPadUnaligned', 'KSegmentEval', 'KSegmentUnaligned',
             'KReserveEval', 'KReserveUnaligned', 'KExprFold', 'KOpEval', 'KWflipValue', 'KBoundsUnaligned', 'KNoSpace',
-            'KAddSegment', 'KNoFirstOp', 'KFirstNotSegment', 'KNotPrimitive', 'KPadTooHigh']
+            'KAddSegment', 'KNoFirstOp', 'KFirstNotSegment', 'KNotPrimitive', 'KPadTooHigh', 'KWriterWordRange']
 
 # recorded defects of the unchanged tree: the theorems carry these guards; a case failing the specification only
 # because of one of them is reported as that finding (KNOWN-FINDING when listed in known_findings.json)
@@ -53,6 +53,8 @@ def classify_error(err):
                        ('reserve ops must have a w-aligned', 'KReserveUnaligned'), ('reserve failed', 'KReserveEval')):
             if pat in msg:
                 return 'lib', k
+    if cls == 'FlipJumpWriteFjmException' and msg.startswith('data word ') and "doesn't fit in" in msg:
+        return 'lib', 'KWriterWordRange'      # Writer.add_data, not wrapped by add_segment_to_fjm
     if cls == 'FlipJumpExprException':
         return 'lib', 'KExprFold'
     if cls == 'FlipJumpAssemblerException':
